@@ -15,7 +15,7 @@ import (
 func run(c *mon.Case) {
 	uichk.Init()
 	r := c.Rng
-	s, err := uichk.NewSession(r, 4)
+	s, err := uichk.NewSessionAt(r, 4, uichk.PickBase(r))
 	if err != nil {
 		c.Count("session_build_failed", 1)
 		return
